@@ -25,7 +25,7 @@ func init() {
 }
 
 var filters = []string{"a/b/", "b/a/", "a/a/", "b/b/", "x/x/y/", "y/", "a/", "a/+/"}
-var probes = []string{"a/b/", "b/a/", "a/a/", "b/b/", "c/c/", "x/x/y/", "y/", "a/", "a/b/c/", "x/x/"}
+var probes = []string{"a/b/", "b/a/", "a/a/", "b/b/", "c/c/", "x/x/y/", "y/", "a/", "a/b/c/", "x/x/", "presence/q/"}
 var mqttFilters = []string{"a/b/", "b/a/", "a/+/", "a/#/", "a/", "#/"}
 
 type opDesc struct {
@@ -86,6 +86,8 @@ func collisionAlphabet() []opDesc {
 		}
 	}
 	ops = append(ops, opDesc{Kind: "sub", Client: 1, Filter: "b/b/"}, opDesc{Kind: "unsub", Client: 1, Filter: "b/b/"})
+	// a channel spelled like one of the words the broker reserves for its own subscriptions: an ordinary name to a client
+	ops = append(ops, opDesc{Kind: "sub", Client: 1, Filter: "presence/q/"}, opDesc{Kind: "unsub", Client: 1, Filter: "presence/q/"})
 	return ops
 }
 
@@ -120,7 +122,7 @@ func newWorkerEnv(mode string) *workerEnv {
 	w.rw = w.env.MustKey("#/", security.AllowRead|security.AllowWrite)
 	w.wo = w.env.MustKey("#/", security.AllowWrite)
 	w.ro = w.env.MustKey("#/", security.AllowRead)
-	all := append(append([]string{"c/c/"}, filters...), mqttFilters...)
+	all := append(append([]string{"c/c/", "presence/q/"}, filters...), mqttFilters...)
 	for _, f := range all {
 		ch := security.ParseChannel([]byte("k/" + f))
 		ssid := message.NewSsid(w.env.License.Contract(), ch.Query)
